@@ -187,9 +187,9 @@ pub fn generate(prop: &str, seed: u64, idx: u64, tier: Tier) -> Plan {
             p.heal_at_ms = p.heal_at_ms.max(last + 6000);
         }
     }
-    // C13: in 10 % of the runs one channel is closed by an application at some instant (possibly while the association
+    // C13 and C12: in 10 % of the runs one channel is closed by an application at some instant (possibly while the association
     // is still being set up): what close_data_channel() puts on the wire is subject to the sender rules too
-    if prop == "C13" {
+    if prop == "C13" || prop == "C12" {
         let mut rs = Rng::new(mix(mix(seed, idx), 0x636c_6f73_655f_6368));
         if rs.chance(10) {
             let nch = p.knob("nch", 1).max(1) as u64;
